@@ -128,8 +128,8 @@ Qed.
 Example repaired_summary_witness :
   let k := index_of (is_w SummaryTmp) (plan_ops repaired cDk 0 [] empty_fs) in
   let s1 := run_crash repaired cDk 0 [] k VHalf empty_fs in
-  plan_out repaired cDk 1 [] s1 = inr (mkres 1 (Some 1) false).
-Proof. vm_compute. reflexivity. Qed.
+  exists r, plan_out repaired cDk 1 [] s1 = inr r /\ r_tag r = 1 /\ r_samples r = Some 1.
+Proof. vm_compute. eexists. repeat split. Qed.
 
 (* the same histories on the repaired model end well *)
 Example repaired_zip_witness :
@@ -160,10 +160,20 @@ Proof. split; [apply inv_reachable | vm_compute; discriminate]. Qed.
 (* the hypothesis of C06_complete_once_repaired in its own form, and sane *)
 Example repaired_reachable_stored :
   stored cDz 0 (history repaired cDz 0 [([], None); ([], Some (3, VHalf)); ([], Some (25, VEmpty))] empty_fs)
-  /\ sane cL /\ sane cD.
-Proof. split; [vm_compute; repeat split; reflexivity|]. split; intro H; [vm_compute; auto | discriminate H]. Qed.
+  /\ sane repaired cL /\ sane repaired cD.
+Proof. split; [vm_compute; repeat split; reflexivity|]. split; intros H U; [discriminate U | discriminate H]. Qed.
 
 Example internal_kept_witness :
   let s0 := run_full repaired cL 0 [] empty_fs in
   eff_dir s0 Dill = Full (Gen 0) /\ eff_dir (run_full repaired cL 1 [] s0) Dill = Full (Gen 0).
+Proof. vm_compute. split; reflexivity. Qed.
+
+(* the two prepared variants: maxiter = 0 completes, a fresh Drawer run keeps its search internal in memory *)
+Example zero_updates_repaired :
+  plan_out repaired_all (mkcfg LBFGS 0 true false true false) 0 [] empty_fs = inr (mkres 0 (Some 0) true).
+Proof. vm_compute. reflexivity. Qed.
+
+Example drawer_repaired_same_disk :
+  plan_out repaired_all cDz 0 [] empty_fs = inr (mkres 0 (Some 0) true)
+  /\ fs_eqb (run_full repaired_all cDz 0 [] empty_fs) (run_full repaired cDz 0 [] empty_fs) = true.
 Proof. vm_compute. split; reflexivity. Qed.
